@@ -1,7 +1,74 @@
-import Driver.Proto
+import Driver.BusUtil
 namespace Driver
+open GbVerif
 
-/-- C11 correspondence (stub) -/
-def checkC11 (l : Line) : Verdict := .bad s!"stream {l.stream} not implemented"
+def boundary : List Nat := [
+  0x0000, 0x0001, 0x1fff, 0x2000, 0x3fff, 0x4000, 0x5fff, 0x6000, 0x7fff, 0x8000, 0x9fff, 0xa000, 0xa7ff, 0xa800,
+  0xbfff, 0xc000, 0xcfff, 0xd000, 0xdfff, 0xe000, 0xfdff, 0xfe00, 0xfe9f, 0xfea0, 0xfeff, 0xff00, 0xff01, 0xff02,
+  0xff04, 0xff05, 0xff06, 0xff07, 0xff0f, 0xff40, 0xff41, 0xff45, 0xff46, 0xff47, 0xff4b, 0xff7f, 0xff80, 0xffc6,
+  0xfffe, 0xffff]
+
+/-- `addr_set` of harness/src/s_c11.rs -/
+def addrSet (all : Bool) (seed : Nat) : Array Nat := Id.run do
+  if all then
+    let mut v : Array Nat := Array.mkEmpty 65536
+    for a in [0x8000:0x10000] do v := v.push a
+    for a in [0:0x8000] do v := v.push a
+    return v
+  else
+    let mut v : Array Nat := (boundary.filter (· ≥ 0x8000)).toArray
+    let mut r := Rng.new (UInt64.ofNat (seed ^^^ 0xadd5))
+    for _ in [0:200] do
+      let (x, r') := r.u16; r := r'
+      v := v.push (0x8000 ||| x)
+    v := v ++ (boundary.filter (· < 0x8000)).toArray
+    for _ in [0:56] do
+      let (x, r') := r.u16; r := r'
+      v := v.push (x &&& 0x7fff)
+    return v
+
+/-- C11: replay one sweep on the model with explicit panics; the spec is "never dies" -/
+def checkC11 (l : Line) : Verdict := Id.run do
+  let died := l.outS "died"
+  let kind := l.inS "kind"
+  let addrs := addrSet (l.inS "set" == "all") (l.inN "seed")
+  let mut s := mkBus l
+  for (a, v) in parsePairs (l.inS "regs") do
+    match Bus.write s a v with
+    | .ok s' => s := s'
+    | .error _ => return .modelDiff "model panics in the register prefix"
+  let mut h := fnv0
+  let mut panicAt : Option Nat := none
+  let mut i := 0
+  for a in addrs do
+    if panicAt.isNone then
+      match kind with
+      | "rd" => match Bus.read s a with
+        | .ok v => h := fnv h v
+        | .error _ => panicAt := some i
+      | "wr" => match Bus.write s a ((a * 7 + 3) % 256) with
+        | .ok s' => s := s'
+        | .error _ => panicAt := some i
+      | "rdw" => match Bus.readWord s a with
+        | .ok v => h := fnv (fnv h (v % 256)) (v / 256)
+        | .error _ => panicAt := some i
+      | _ => match Bus.writeWord s a ((a * 257 + 1) % 65536) with
+        | .ok s' => s := s'
+        | .error _ => panicAt := some i
+    i := i + 1
+  if died != "none" then
+    -- the implementation crashed: violation witness (spec: every access completes)
+    return .specDiff s!"process died ({died}) during a {kind} sweep — a guest-controlled bus access crashed the emulator"
+  match panicAt with
+  | some j => return .modelDiff s!"model predicts a panic at access {j} (addr {addrs[j]!}) but the implementation survived"
+  | none => pure ()
+  if toString h != l.outS "dig" then return .modelDiff s!"result digest model={h} impl={l.outS "dig"}"
+  let md := modelDigests s
+  let mut img := fnv0
+  for d in md do
+    for k in [0:8] do
+      img := fnv img ((d.toNat >>> (8 * k)) % 256)
+  if toString img != l.outS "img" then return .modelDiff s!"image digest after sweep model={img} impl={l.outS "img"}"
+  return .ok true
 
 end Driver
